@@ -530,7 +530,7 @@ def run(ctx: Ctx):
             ctx.disagreement("hist", {"origin": org, "history": h[: stp + 1], "observed": _brief(steps[stp]["obs"])}, detail)
         else:
             ctx.disagreement("hist", {"origin": org, "history": h}, "model differs (position not recovered): " + txt[-300:])
-    drift = ctx.coq_cases("summ_exact", HDR, cases, f"chk_summ_exact {UNIV}", shard=4 if ctx.quick else 2, timeout=900)
+    drift = ctx.coq_cases("summ_exact", HDR, cases, "chk_summ_exact", shard=4 if ctx.quick else 2, timeout=900)
     if drift:
         ctx.cov["structural_drift"].append(f"summary tables differ from the model's exact rows in {len(drift)} histories (superset relation holds)")
         ctx.cov["ties"]["K:summ_exact"] = "drift (not a broken tie)"
